@@ -86,7 +86,7 @@ static uint64_t frnd(uint64_t n) { return n ? vh_splitmix(&fault_rng.s) % n : 0;
 static struct {
     int socket_errno, bind_errno, listen_errno, connect_errno, dup_errno;
     int accept_errno, accept_times;
-    int write_errno;                      /* answers the next write on a library descriptor */
+    int write_errno, write_skip;          /* answers a write on a library descriptor, after write_skip other writes */
     int close_eio;                        /* next close of a library descriptor closes it and reports EIO */
     int consumed;
 } inj;
@@ -160,7 +160,7 @@ ssize_t __wrap_write(int fd, const void *buf, size_t n)
     if (!tracked(fd)) return __real_write(fd, buf, n);
     int e0 = errno;
     count_call("write");
-    if (inj.write_errno) {
+    if (inj.write_errno && inj.write_skip-- <= 0) {
         int e = inj.write_errno;
         inj.write_errno = 0; inj.consumed++;
         TRACE("write(%d, %zu) = -1 %s [injected]", fd, n, strerror(e));
@@ -175,13 +175,6 @@ ssize_t __wrap_write(int fd, const void *buf, size_t n)
         TRACE("write(%d, %zu) = -1 %s [injected]", fd, n, kind == F_EINTR ? "EINTR" : "EAGAIN");
         errno = kind == F_EINTR ? EINTR : EAGAIN; return -1;
     }
-    int lst = 0; socklen_t ol = sizeof lst;
-    if (!ready(fd, POLLOUT) && !(getsockopt(fd, SOL_SOCKET, SO_ACCEPTCONN, &lst, &ol) == 0 && lst)) {
-        /* buffer full and nobody will ever drain it while we are inside send (a listening socket fails at once instead) */
-        guard_write_block++;
-        TRACE("write(%d, %zu) would block forever -> ENOBUFS [guard]", fd, n);
-        errno = ENOBUFS; return -1;
-    }
     size_t want = n;
     if (kind == F_SHORT) {
         int later = 0;
@@ -194,8 +187,16 @@ ssize_t __wrap_write(int fd, const void *buf, size_t n)
         } else kind = F_COMPLETE;
     } else if (scheduled) wapplied++;
     errno = e0;
-    ssize_t r = __real_write(fd, buf, want);
+    /* never sleep: nobody would drain the buffer while we are inside send.  (poll(POLLOUT) is no use as a test:
+     * it already says "not writable" at a quarter of the send buffer.) */
+    ssize_t r = send(fd, buf, want, MSG_DONTWAIT);
+    if (r < 0 && errno == ENOTSOCK) { errno = e0; r = __real_write(fd, buf, want); }
     int e1 = errno;
+    if (r < 0 && (e1 == EAGAIN || e1 == EWOULDBLOCK)) {
+        guard_write_block++;
+        TRACE("write(%d, %zu) would block forever -> ENOBUFS [guard]", fd, n);
+        errno = ENOBUFS; return -1;
+    }
     if (r > 0) {
         if (wcap && wcapn + (size_t) r <= CAPMAX) { memcpy(wcap + wcapn, buf, (size_t) r); wcapn += (size_t) r; }
         bytes_written_case += r;
@@ -817,7 +818,7 @@ static void transfer_case(int grid)
 }
 
 /* ------------------------------------------------------------------ lifecycle histories */
-static int pick_live(void)
+static int pick_any(void)
 {
     int n = nlive();
     if (!n) return -1;
@@ -825,11 +826,36 @@ static int pick_live(void)
     for (int i = 0; i < MAXOBJ; i++) if (objs[i].s && k-- == 0) return i;
     return -1;
 }
+/* objects that hold a descriptor are the interesting ones; the others are picked a quarter of the time */
+static int pick_live(void)
+{
+    int c[MAXOBJ], n = 0;
+    for (int i = 0; i < MAXOBJ; i++) if (objs[i].s && objs[i].s->fd >= 0) c[n++] = i;
+    if (n && vh_coin(75)) return c[vh_below((uint64_t) n)];
+    return pick_any();
+}
+static int pick_dead(void)
+{
+    int c[MAXOBJ], n = 0;
+    for (int i = 0; i < MAXOBJ; i++) if (objs[i].s && objs[i].s->fd < 0) c[n++] = i;
+    if (n && vh_coin(60)) return c[vh_below((uint64_t) n)];
+    return pick_any();
+}
 static int pick_kind(const char *kinds)
 {
     int c[MAXOBJ], n = 0;
     for (int i = 0; i < MAXOBJ; i++) if (objs[i].s && strchr(kinds, objs[i].kind)) c[n++] = i;
     return n ? c[vh_below((uint64_t) n)] : -1;
+}
+/* prefer objects in a given state (flag set and descriptor present); fall back to kind, then to any */
+static int pick_flag(unsigned long flag, const char *kinds)
+{
+    int c[MAXOBJ], n = 0;
+    for (int i = 0; i < MAXOBJ; i++)
+        if (objs[i].s && objs[i].s->fd >= 0 && (flag ? SPIF_SOCKET_FLAGS_IS_SET(objs[i].s, flag) != 0 : objs[i].kind == 'A')) c[n++] = i;
+    if (n && vh_coin(80)) return c[vh_below((uint64_t) n)];
+    int i = vh_coin(70) ? pick_kind(kinds) : -1;
+    return i >= 0 ? i : pick_live();
 }
 static int state_class(int i)
 {
@@ -845,13 +871,29 @@ static void lifecycle_case(void)
     char paths[3][100], missing[100];
     make_path(paths[0], 100, "a"); make_path(paths[1], 100, "b"); make_path(paths[2], 100, "c");
     snprintf(missing, sizeof missing, "%s/nodir%ld/x", base_dir, vh_case_idx);
-    int nops = (int) vh_range(6, 40);
+    int nops = (int) vh_range(8, 60);
     static const int PCT[] = { 0, 0, 15, 40 };
     rand_fault_pct = PCT[vh_below(4)];
     int inject_pct = vh_coin(50) ? 0 : (int) vh_range(5, 25);
     int client_seq = 0;
+    int nbound_listeners = 0;
     for (int step = 0; step < nops; step++) {
-        int r = (int) vh_below(100);
+        /* operation weights follow the state: accept when a connection is pending, send/recv when something is connected */
+        int pending = 0, connected = 0, withfd = 0;
+        for (int q = 0; q < nptab; q++) pending += ptab[q].pending;
+        for (int q = 0; q < MAXOBJ; q++) if (objs[q].s && objs[q].s->fd >= 0) {
+            withfd++;
+            if (SPIF_SOCKET_FLAGS_IS_SET(objs[q].s, SPIF_SOCKET_FLAGS_CONNECTED) || objs[q].kind == 'A') connected++;
+        }
+        int W[11] = { withfd < 2 ? 34 : 14, 6, pending ? 22 : 4, connected ? 18 : 4, connected ? 14 : 3, 6, 6, 6, 3, 2, 1 };
+        static const int EDGE[11] = { 14, 24, 40, 58, 72, 80, 87, 93, 96, 98, 100 };   /* upper edges of the branches below */
+        int tot = 0, r = 0;
+        for (int q = 0; q < 11; q++) tot += W[q];
+        {
+            int x = (int) vh_below((uint64_t) tot), q = 0;
+            while (x >= W[q]) { x -= W[q]; q++; }
+            r = (q ? EDGE[q - 1] : 0);
+        }
         int i = -1, opc = 0, argc_ = 0, st = 0, outcome = 0;
         memset(&inj, 0, sizeof inj);
         int injecting = inject_pct && vh_coin(inject_pct);
@@ -859,44 +901,57 @@ static void lifecycle_case(void)
             /* create: listener (good path / missing directory) or client (good path / nobody listening), sometimes bound */
             int k = (int) vh_below(10);
             int wp = vh_coin(50);
+            int have_listener = 0;
+            for (int q = 0; q < MAXOBJ; q++) if (objs[q].s && objs[q].s->fd >= 0 && SPIF_SOCKET_FLAGS_IS_SET(objs[q].s, SPIF_SOCKET_FLAGS_LISTEN)) have_listener = 1;
+            if (!have_listener && vh_coin(75)) k = 0;
             opc = 1; argc_ = k;
-            if (k < 4) i = op_new('L', paths[vh_below(2)], NULL, wp);
+            if (k < 3) i = op_new('L', paths[(k == 0 && nbound_listeners < 2) ? nbound_listeners : (int) vh_below(2)], NULL, wp);
+            else if (k == 3) i = op_new('L', paths[vh_below(2)], NULL, wp);
             else if (k == 4) i = op_new('L', missing, NULL, wp);
             else if (k < 9) {
                 char cp[100]; snprintf(cp, sizeof cp, "%s/k%ldc%d", base_dir, vh_case_idx, client_seq++);
-                i = op_new('C', vh_coin(15) ? cp : NULL, paths[vh_below(k == 8 ? 3 : 2)], wp);
+                int pi = (int) vh_below(k == 8 ? 3 : 2);
+                int li = pick_flag(SPIF_SOCKET_FLAGS_LISTEN, "L");
+                if (k < 8 && li >= 0 && objs[li].kind == 'L' && SPIF_SOCKET_FLAGS_IS_SET(objs[li].s, SPIF_SOCKET_FLAGS_LISTEN) && objs[li].s->local_url
+                    && spif_url_get_path(objs[li].s->local_url) && !strcmp((char *) SPIF_STR_STR(spif_url_get_path(objs[li].s->local_url)), paths[1 - pi]))
+                    pi = 1 - pi;
+                i = op_new('C', vh_coin(15) ? cp : NULL, paths[pi], wp);
             } else i = op_new('C', NULL, missing, wp);
-            if (i >= 0 && vh_coin(70)) {
+            if (i >= 0 && vh_coin(k == 0 ? 92 : 75)) {
                 st = state_class(i);
                 if (injecting) {
                     int w = (int) vh_below(4);
                     if (w == 0) inj.socket_errno = EMFILE; else if (w == 1) inj.bind_errno = EACCES; else if (w == 2) inj.listen_errno = EADDRINUSE; else inj.connect_errno = ECONNREFUSED;
                 }
                 outcome = op_open(i);
+                if (outcome && objs[i].kind == 'L' && nbound_listeners < 2 && k == 0) nbound_listeners++;
                 if (inj.consumed) vh_count("open_with_injected_failure", 1);
             }
         } else if (r < 24) { i = pick_live(); opc = 2; st = state_class(i);
             if (injecting) { int w = (int) vh_below(4); if (w == 0) inj.socket_errno = ENFILE; else if (w == 1) inj.bind_errno = EADDRINUSE; else if (w == 2) inj.listen_errno = EOPNOTSUPP; else inj.connect_errno = ETIMEDOUT; }
             outcome = op_open(i);
             if (inj.consumed) vh_count("open_with_injected_failure", 1);
-        } else if (r < 40) { i = vh_coin(85) ? pick_kind("LD") : pick_live(); if (i < 0) i = pick_live(); opc = 3; st = state_class(i);
+        } else if (r < 40) { i = pick_flag(SPIF_SOCKET_FLAGS_LISTEN, "LD"); opc = 3; st = state_class(i);
             if (free_slot() < 0) continue;
             if (injecting) { inj.accept_errno = ACCEPT_ERRS[vh_below(5)]; inj.accept_times = inj.accept_errno == EAGAIN ? (int) vh_range(1, 3) : 1; argc_ = inj.accept_errno; }
             outcome = op_accept(i) >= 0;
+            if (outcome) vh_count("lifecycle_accept_ok", 1);
             if (inj.consumed) vh_count("accept_with_injected_failure", 1);
-        } else if (r < 58) { i = vh_coin(80) ? pick_kind("CAD") : pick_live(); if (i < 0) i = pick_live(); opc = 4; st = state_class(i);
+        } else if (r < 58) { i = vh_coin(75) ? pick_flag(SPIF_SOCKET_FLAGS_CONNECTED, "CAD") : pick_flag(0, "CAD"); opc = 4; st = state_class(i);
             size_t room = bytes_written_case < 90000 ? 90000 - (size_t) bytes_written_case : 0;
             size_t n = vh_coin(60) ? (size_t) vh_range(1, 200) : vh_coin(70) ? (size_t) vh_range(1000, 5000) : (size_t) vh_range(5000, 20000);
             if (n > room) n = room;
             if (n == 0) continue;
-            if (injecting) { inj.write_errno = WRITE_ERRS[vh_below(6)]; argc_ = inj.write_errno; }
+            if (injecting) { inj.write_errno = WRITE_ERRS[vh_below(6)]; inj.write_skip = vh_coin(60) ? 0 : (int) vh_range(1, 2); argc_ = inj.write_errno; }
             unsigned char *p = gen_payload(n);
             outcome = op_send(i, p, n, 0);
+            if (outcome) vh_count("lifecycle_send_ok", 1);
             free(p);
             if (inj.consumed) vh_count(argc_ == EFBIG ? "send_with_injected_EFBIG" : "send_with_injected_error", 1);
-        } else if (r < 72) { i = vh_coin(80) ? pick_kind("CAD") : pick_live(); if (i < 0) i = pick_live(); opc = 5; st = state_class(i);
+        } else if (r < 72) { i = vh_coin(40) ? pick_flag(SPIF_SOCKET_FLAGS_CONNECTED, "CAD") : pick_flag(0, "CAD"); opc = 5; st = state_class(i);
             spif_str_t g = op_recv(i);
             outcome = g && spif_str_get_len(g) > 0;
+            if (outcome) vh_count("lifecycle_recv_with_data", 1);
             if (g) spif_str_del(g);
         } else if (r < 80) { i = pick_live(); opc = 6; st = state_class(i);
             if (injecting) inj.close_eio = 1;
@@ -907,7 +962,7 @@ static void lifecycle_case(void)
             if (injecting) inj.dup_errno = EMFILE;
             outcome = op_dup(i) >= 0;
             if (inj.consumed) vh_count("dup_with_injected_failure", 1);
-        } else if (r < 93) { i = pick_live(); opc = 8; st = state_class(i); op_del(i);
+        } else if (r < 93) { i = pick_dead(); opc = 8; st = state_class(i); op_del(i);
         } else if (r < 96) { i = pick_live(); opc = 9; st = state_class(i); argc_ = vh_coin(70); op_nbio(i, argc_);
         } else if (r < 98) { i = pick_live(); opc = 10; st = state_class(i); op_check_io(i);
         } else { i = pick_live(); opc = 11; st = state_class(i); op_done(i); }
